@@ -466,6 +466,9 @@ func (x *prioExec) checkTermination(what string) {
 			// the same observation is a loss of written items (C02) and, after control calls, a
 			// registered channel that was not served (C17)
 			x.fail("C02", "lost-at-termination", "the discipline terminated normally but priority %d (channel #%d) had %d items written before its close of which only %d were delivered", in.P, in.ID, in.wcCount.Load(), in.recv)
+			// ... and a finite refutation of "every written item is eventually delivered" (C06):
+			// nothing is delivered after the closure
+			x.fail("C06", "terminated-with-undelivered-items", "the discipline terminated normally (nobody stopped it) while priority %d (channel #%d) still had %d written items that were never delivered: they never will be", in.P, in.ID, in.wcCount.Load()-int64(in.recv))
 			if x.res.CtlOps > 0 {
 				x.fail("C17", "registered-channel-not-served", "the discipline terminated normally but channel #%d registered for priority %d (by AddInput or at creation) had %d written items of which only %d were delivered", in.ID, in.P, in.wcCount.Load(), in.recv)
 			}
